@@ -894,6 +894,15 @@ package compose
 //@   props C17
 //@   ensures[fields] result.name == name && result.arg == arg && result.callID == callID && result.r != nil && result.meta != nil && result.err == nil
 
+//@ func (*runnablePacker).toComposableRunnable$1
+//@   props C07 C04
+//@   skip pre
+//@   nopanic
+//@   note the value-form entry of a node: the value handed in is an I boxed as any - a nil box is the nil value of an interface type I, which is a valid input (the stream form accepts it); it must not be reported as a type mismatch
+//@   requires[input_is_a_boxed_I] input != nil ==> is(input, "I")
+//@   requires[nil_only_for_interface_types] input == nil ==> inputType != nil && kindOf(inputType) == 20
+//@   requires rp != nil
+
 //@ func newRunnablePacker
 //@   props C04
 //@   modifies fresh()
